@@ -215,4 +215,15 @@ def case(world):
                     viol.append(V(ID, "wrong-location", "Hessian with a mis-scaled multiplier: the error names column %d rows %s where the Hessian is right" % (col, rows), sub, ctx, sig_extra="hess-multiplier"))
                 else:
                     bump("detected")
+            # the same wrong Hessian, met on a *second* solve from the same x0: the first solve starts from zero
+            # multipliers (where the constraint curvature is invisible and the check passes), the second one from y0
+            if F.outcome == "DerivError":
+                G0 = execute(w, y0=np.zeros(rt.um.m))
+                execs += 1
+                if G0.outcome != "DerivError" and G0.solver is not None:
+                    G1 = execute(w, problem=G0.problem, solver=G0.solver)
+                    execs += 1
+                    bump("second_solve.other_multipliers")
+                    if G1.outcome != "DerivError":
+                        viol.append(V(ID, "missed", "second solve() from the same x0 with other starting multipliers: the mis-scaled constraint curvature is visible there (a fresh solver rejects it), yet the solve went on: %s" % G1.outcome, sub, ctx, sig_extra="second-solve-multipliers"))
     return {"violations": viol, "stats": stats, "keys": keys, "executions": execs, "sample": small_sample(world, {"plans": world["case"]["plans"][:3]})}
